@@ -138,6 +138,14 @@ def run(tier, seed):
            "samples": [{"request": l, "event": {k: v for k, v in outcomes.get(i, {}).items() if k != "code"}}
                        for i, l in enumerate(lines[:400:100])],
            "outcome_histogram": hist, "exhaustive_requests": exhaustive_part, "exhaustive": False, "limit_s": LIMIT_S}
+    from .. import structure_conf
+
+    sv, sr, sn = structure_conf.check_orders(tier)
+    vio += sv
+    cov["states"] += sr.distinct
+    cov["transitions"] += sr.generated
+    cov["legal_iteration_orders_formats_compared"] = sn
+    cov["traces_validated_against_impl"] += sn
     return {"violations": vio, "coverage": cov,
             "assumptions": ["'never hangs' is a per-request wall-clock limit, not a termination proof of the search",
                             "gcc -std=c11 -fsyntax-only with <stdint.h>, <stdlib.h> and the repository's published header"]}
